@@ -24,7 +24,7 @@ def _sha(path):
         return hashlib.sha256(fh.read()).hexdigest()
 
 
-def _project(path, rootless=False, holes=False):
+def _project(path, rootless=False, holes=False, no_root_group=False):
     import h5py
 
     from geoh5py.groups import ContainerGroup
@@ -45,9 +45,15 @@ def _project(path, rootless=False, holes=False):
             dg = DrillholeGroup.create(ws, name="DH")
             dh = Drillhole.create(ws, name="H0", parent=dg, collar=[0.0, 0.0, 0.0], surveys=np.c_[np.r_[0.0, 10.0], np.zeros(2), np.ones(2) * -90.0])
             dh.add_data({"Au": {"depth": np.array([1.0, 2.0, 3.0]), "values": np.arange(3.0)}})
-    if rootless:
+    if rootless or no_root_group:
         with h5py.File(path, "r+") as f:
-            del f[list(f)[0]]["Root"]
+            proj = f[list(f)[0]]
+            rid = proj["Root"].attrs["ID"]
+            rid = rid.decode() if isinstance(rid, bytes) else str(rid)
+            del proj["Root"]
+            if no_root_group:
+                # the root group's own node is absent too: every stored entity is then found through the flat containers only
+                del proj["Groups"][rid]
 
 
 # ------------------------------------------------------------------------------------------
@@ -68,7 +74,7 @@ class ReadOnlyHistories(Contract):
     props = ("C10",)
     bounded_scope = ("a 5-entity project (plus a drillhole group with one hole and a depth log when the sequence touches drillholes) opened with mode 'r'; sequences of 3-8 calls over getters, setters (on entities and on entity types, the root's included), creations, removals (through the workspace and through the parent, also repeated with a handle kept from an earlier attempt or session), copies, property-group edits and creations, data and objects given another parent, close/re-open "
                      "(with and without an explicit mode) and fetch_active_workspace: after every call the file's sha256 is unchanged, an open handle reports mode 'r', and every "
-                     "call that has to write raised; 21 fixed + 40 seeded sequences (quick) / 600 (thorough); plus the ui.json loader and monitoring-directory helpers on ordinary "
+                     "call that has to write raised; 21 fixed (+ 4 on files without their Root link / root group) + 40 seeded sequences (quick) / 600 (thorough); plus the ui.json loader and monitoring-directory helpers on ordinary "
                      "and root-less files")
 
     FIXED = [
@@ -98,6 +104,10 @@ class ReadOnlyHistories(Contract):
     def native_cases(self, tier, rng):
         for ops in self.FIXED:
             yield {"kind": "history", "ops": ops}
+        # the same calls on a file without its Root link, and without the root group's node either
+        for file in ("rootless", "rootless-no-root-group"):
+            for ops in ([("rename", 0), ("rename", 1), ("set_values", 0), ("set_vertices", 1), ("add_data", 0)], [("get", 0), ("values", 0), ("rename", 2), ("remove", 0), ("pg_create", 1)]):  # (no type edits here: the type of a rebuilt root is a lead of DESIGN 10.7, not claimed)
+                yield {"kind": "history", "ops": ops, "file": file}
         for _ in range(40 if tier == "quick" else 600):
             yield {"kind": "history", "ops": [(rng.choice(RO_OPS), rng.randint(0, 2)) for _ in range(rng.randint(3, 8))]}
         for rootless in (False, True):
@@ -108,7 +118,7 @@ class ReadOnlyHistories(Contract):
         d = tempfile.mkdtemp()
         try:
             if case["kind"] == "history":
-                return self._history(d, {"ops": [tuple(o) for o in case["ops"]]})
+                return self._history(d, {"ops": [tuple(o) for o in case["ops"]], "file": case.get("file")})
             return self._helper(d, case)
         except Exception as exc:
             import traceback
@@ -124,7 +134,7 @@ class ReadOnlyHistories(Contract):
         from geoh5py.workspace import Workspace
 
         path = os.path.join(d, "ro.geoh5")
-        _project(path, holes=any(op.startswith("hole_") for op, _ in case["ops"]))
+        _project(path, holes=any(op.startswith("hole_") for op, _ in case["ops"]), rootless=case.get("file") == "rootless", no_root_group=case.get("file") == "rootless-no-root-group")
         before = _sha(path)
         other = Workspace.create(os.path.join(d, "other.geoh5"))
         ws = Workspace(path, mode="r")
